@@ -9,6 +9,7 @@ from collections import Counter
 import vetlib
 import gen
 import oracle as O
+import usercmd
 from vetlib import coq, parse_sexp
 
 MODEL_IMPORTS = ["Base", "Extracted", "Criteria", "Search", "AuditGraph", "DepGraph", "Resolve", "Show",
@@ -432,6 +433,32 @@ def run_histories(spec, cases, work, model_ok=True, compare_taps=True):
     outcomes = Counter()
     compared = 0
     nontrivial = 0
+    # user-requested commands with logic of their own (`trust`): the model (coq/UserCommands.v) is run on the entries the
+    # store held before the command and the request as typed, and compared with what the real command wrote
+    if model_ok and getattr(spec, "compare_user_commands", False):
+        uexprs, uwant = [], {}
+        for cid, o in obs.items():
+            if o["status"] != "ok":
+                continue
+            for k in range(len(o["steps"])):
+                st = Step(k, bycase[cid], o)
+                if st.cls == "trust" and isinstance(st.pre, dict) and isinstance(st.post, dict):
+                    tc = usercmd.trust_case(st)
+                    if tc:
+                        uexprs.append((f"{cid}@{k}", tc[0]))
+                        uwant[f"{cid}@{k}"] = tc[1]
+        umodel = vetlib.run_model(uexprs, os.path.join(work, "model-user"), usercmd.MODEL_IMPORTS) if uexprs else {}
+        for key, want in uwant.items():
+            cid, k = key.rsplit("@", 1)
+            m = umodel.get(key, "MODEL-ERROR: missing")
+            if m.startswith("MODEL-ERROR"):
+                res["mismatches"].append({"id": cid, "why": f"step {k} (trust): model evaluation failed: {m[:300]}", "case": gen.strip_struct(bycase[cid])})
+                continue
+            compared += 1
+            got = usercmd.canon_trust(m)
+            if got != want:
+                res["mismatches"].append({"id": cid, "why": f"step {k}: the trusted entries `{' '.join(obs[cid]['steps'][int(k)]['args'][:3])}` wrote differ from the model's",
+                                          "impl": json.dumps(want)[:600], "model": json.dumps(got)[:600], "case": gen.strip_struct(bycase[cid])})
     for cid, o in obs.items():
         case = bycase[cid]
         if o["status"] == "refused":
